@@ -8,7 +8,7 @@ import (
 
 var c01pTwoActs = sim.RegStat("probe:c01-handler-did-two-things")
 
-var c01Kinds = []lKind{lkConnDial, lkConnAcc, lkAdapter, lkFifoR, lkFifoW, lkRegular, lkListener, lkPacket, lkPeer}
+var c01Kinds = []lKind{lkConnDial, lkConnAcc, lkAdapter, lkFifoR, lkFifoW, lkRegular, lkListener, lkPacket, lkPeer, lkConnUDP}
 
 func init() {
 	Register("C01", &Scenario{Name: "mix-random", Weight: 10, Run: func(c *Ctx, v int) { runC01(c, -1) }})
@@ -130,6 +130,16 @@ func (d *c01) peerAct(o *lObj) {
 		d.peerDatagram(o, w.Pick(8, 1, 100, 1400))
 		return
 	case lkRegular:
+		return
+	case lkConnUDP:
+		switch w.Choose(6) {
+		case 0, 1, 2:
+			d.peerSend(o, w.Pick(16, 1, 100, 1400))
+		case 3, 4:
+			d.peerDrain(o, 1<<20)
+		case 5:
+			d.peerClose(o)
+		}
 		return
 	}
 	switch w.Choose(10) {
